@@ -21,12 +21,15 @@ type c11Case struct {
 	Ring   []ref.F     `json:"ring"` // x y pairs (closed for rings)
 	P      []ref.F     `json:"p"`
 	Layout geom.Layout `json:"layout"`
+	// Tags: 0 = extra ordinates are NaN everywhere; 1 = every vertex carries its own finite
+	// extras and the query point different ones
+	Tags int `json:"tags,omitempty"`
 }
 
 func init() {
 	engine.Register(&engine.Check{
 		ID: "C11", Level: "exploration",
-		Rule:        "every closed ring of 3 and 4 vertices on the 4x4 grid and of 5 vertices on the 3x3 grid (thorough: also 5 vertices on the 4x4 grid) - simple, self-intersecting, degenerate, with repeated vertices and horizontal edges, every direction and start vertex - with vertices on even coordinates x every query point of the doubled grid (edge midpoints, points level with vertices); translated copies at 2^26 and layouts XYZ/XYZM with NaN extras; a split-ratio sweep (triangles with a slanted edge through the origin divided a:b for all a,b <= 24 in 10 directions, every start vertex and direction, queried at the origin and its neighbours); LocatePointInRing/IsPointInRing vs the exact even-odd rule evaluated with a vertical ray; IsOnLine/PointIntersectsLine for every segment and 3-vertex polyline x every point of the 5x5 grid plus +-1 ulp perturbations of exactly-on-segment configurations. distinct_nontrivial = distinct (ring, point) pairs with a ring of non-zero area or a boundary hit",
+		Rule:        "every closed ring of 3 and 4 vertices on the 4x4 grid and of 5 vertices on the 3x3 grid (thorough: also 5 vertices on the 4x4 grid) - simple, self-intersecting, degenerate, with repeated vertices and horizontal edges, every direction and start vertex - with vertices on even coordinates x every query point of the doubled grid (edge midpoints, points level with vertices); translated copies at 2^26 and layouts XYZ/XYZM with NaN extras; the vertex lattice queried again in XYZ/XYM/XYZM with extra ordinates that differ between query point and vertices; a split-ratio sweep (triangles with a slanted edge through the origin divided a:b for all a,b <= 24 in 10 directions, every start vertex and direction, queried at the origin and its neighbours); LocatePointInRing/IsPointInRing vs the exact even-odd rule evaluated with a vertical ray; IsOnLine/PointIntersectsLine for every segment and 3-vertex polyline x every point of the 5x5 grid plus +-1 ulp perturbations of exactly-on-segment configurations. distinct_nontrivial = distinct (ring, point) pairs with a ring of non-zero area or a boundary hit",
 		Run:         c11Run,
 		Replay:      func(c *engine.Ctx, kind string, raw json.RawMessage) { c11Exec(c, decodeCase[c11Case](raw)) },
 		Assumptions: []string{"ordinates on an integer grid up to 2^26 (differences exact) for rings; moderate floats for point-on-line"},
@@ -60,6 +63,21 @@ func c11Exec(c *engine.Ctx, cs c11Case) {
 	p := ref.P2{X: float64(cs.P[0]), Y: float64(cs.P[1])}
 	flat := flatWithLayout(cs.Ring, cs.Layout)
 	pc := geom.Coord(flatWithLayout(cs.P, cs.Layout))
+	if cs.Tags > 0 {
+		st := cs.Layout.Stride()
+		for i := 0; i < len(flat); i += st {
+			for k := 2; k < st; k++ {
+				flat[i+k] = float64(1000 + i + k)
+			}
+		}
+		// the closing vertex repeats the first one in every ordinate
+		if cs.Mode == "ring" && len(flat) >= 2*st {
+			copy(flat[len(flat)-st:], flat[:st])
+		}
+		for k := 2; k < len(pc); k++ {
+			pc[k] = float64(-5 - k)
+		}
+	}
 	fail := func(what, desc string) {
 		c.Violate(cs.Mode+"/"+what, fmt.Sprintf("%s; points=%v p=%v layout=%v", desc, cs.Ring, cs.P, cs.Layout), "c11", cs)
 	}
@@ -170,6 +188,18 @@ func c11Run(c *engine.Ctx) {
 		for x := 0; x < q; x++ {
 			for y := 0; y < q; y++ {
 				c11Exec(c, c11Case{Mode: "ring", Ring: ring, P: []ref.F{ref.F(x), ref.F(y)}, Layout: geom.XY})
+				if x%2 == 0 && y%2 == 0 {
+					// the vertex lattice again in layouts whose extra ordinates differ between the
+					// query point and the vertices
+					l, tags := geom.XYZ, 1
+					if (x/2+len(j.verts))%2 == 0 {
+						l = geom.XYZM
+					}
+					if y%4 == 0 {
+						l = geom.XYM
+					}
+					c11Exec(c, c11Case{Mode: "ring", Ring: ring, P: []ref.F{ref.F(x), ref.F(y)}, Layout: l, Tags: tags})
+				}
 				if len(j.verts) == 3 && (x+y)%2 == 0 {
 					// translated copy with extra ordinates
 					tr := make([]ref.F, len(ring))
